@@ -63,8 +63,13 @@ def down(ctx):
             if len(mono) == 2 and c == 1 and rk in mono:
                 adr = [m for m in mono if m != rk][0]
     ob.instance("sub-command address", {"term": key(addr[0].value), "counter": cnt, "latched address": adr})
-    if cnt is None or adr is None or len(la.t) != 2:
-        ob.refute("down-addr", "sub-command address is %s, expected latched_address*ratio + counter" % key(addr[0].value), addr[0].loc)
+    if cnt is not None and adr is not None and len(la.t) != 2:
+        ob.refute("down-addr", "sub-command address is %s: the latched address times the ratio plus the beat counter PLUS something else - the sub-commands are shifted off the "
+                  "user word" % key(addr[0].value), addr[0].loc)
+        return
+    if cnt is None or adr is None:
+        ob.unknown("sub-command address %s is not of the form latched_address*ratio + counter (e.g. a running address register): the splitting arithmetic is not decided" %
+                   key(addr[0].value))
         return
     # Accept-site form (any number of sites at which a user command is taken, e.g. a back-to-back optimisation that takes the next command while
     # the last sub-command is accepted): at EVERY site where port_from.cmd.ready is asserted, a fired handshake loads address, direction and
@@ -220,6 +225,16 @@ def up(ctx):
                 ob.refute("up-mask-order:%s" % tag, "byte-enable widening takes sel bits in order %s, expected %s" % (order, exp), ws[0].loc)
             g = v.guard_keys(ws[0], False)
             need = {"cmd_buffer.source.valid", "cmd_buffer.source.we", "wdata_chunk[%d]" % (ratio - 1)}
+            # the "last chunk of the current word" condition may be spelled with a one-hot chunk register or a binary chunk counter: any guard literal that reads
+            # a local chunk-position register counts; what is refuted is its ABSENCE
+            pos_lits = set()
+            for a_, p_ in v.guard_lits(ws[0], False):
+                for st_ in subterms(a_):
+                    if isinstance(st_, Obj) and st_.cls == "Signal" and v.drivers(st_) and all(d_.domain.startswith("sync") or d_.kind == "nextvalue" for d_ in v.drivers(st_)) \
+                            and st_ is not ws[0].target:
+                        pos_lits.add(lkey((a_, p_)))
+            if pos_lits and {"cmd_buffer.source.valid", "cmd_buffer.source.we"} <= g:
+                need = set()
             if not need <= g:
                 ob.refute("up-mask-latch:%s" % tag, "the widened byte-enable mask is reloaded under %s, missing %s: it can change while a converted "
                           "word of the previous command still waits at the converter output, whose bytes are then masked with the next command's "
